@@ -16,7 +16,10 @@ an object with `session_id` standing in for the RTSP session (answering every re
 and `asyncio.sleep` in the stream_client namespace replaced by a scripted clock whose
 random lag makes the loop take its compensation branch.
 
-Model lines (Driver/C16.lean): `stream`, `ctrl`, `ctrlat`, `load`, `fifo`, `ctxnew`, `ctxstream`, `ctxreset`.
+timing.ntp2parts / ntp2ts / ntp2ms on NTP values up to 2^64 and ntp_now under a patched
+`time_ns` (the source of every stream's start timestamp) against `C16/Timing.lean`.
+
+Model lines (Driver/C16.lean): `stream`, `ctrl`, `ctrlat`, `load`, `fifo`, `ntp`, `ntpnow`, `ctxnew`, `ctxstream`, `ctxreset`.
 The compensation decisions fed to the model are the ones *observed* on the real run; for an
 encrypted v2 run the datagrams in the model's backlog are the observed ones (`load`: the
 cipher is a parameter of the model), payloads are compared after opening them.
@@ -24,6 +27,8 @@ cipher is a parameter of the model), payloads are compared after opening them.
 import asyncio
 import random
 import struct
+
+PROPS_FILES = ["PyatvModel/Props/C16.lean", "PyatvModel/Props/C16Timing.lean"]
 
 RULE = ("stream cases = (protocol variant v1|v2 plain|v2 encrypted) x channels{1,2} x sample size{1,2,3,4} x "
         "source length 0..3*352+351 frames (every remainder; plus byte lengths that are not whole frames) x start "
@@ -1072,6 +1077,94 @@ def run_fifo(ctx, only=None):
             ctx.fail("fifo:last-n", {"fifo": [limit, ops]}, keys, "the last %d inserted keys" % limit, what)
 
 
+# --------------------------------------------------------------------------- timing.py
+
+def gen_timing_cases(ctx):
+    rng = ctx.rng.fork("timing")
+    cases = []
+    edge = [0, 1, 0xFFFF, 0x10000, 0x3FFFFF, 0x400000, 0xFFFFFFFF, 0x100000000, 0x83AA7E80 << 32,
+            (0x83AA7E80 << 32) | 0xFFFFFFFF, 2**64 - 1, 2**63, 2**48 + 2**16 - 1]
+    rates = [1, 8000, 22050, 44100, 48000, 96000, 65535, 65536, 65537]
+    for n in edge:
+        for r in rates[:4]:
+            cases.append(("ntp", n, r))
+    for _ in range(ctx.scale(300, 3000)):
+        kind = rng.randrange(4)
+        if kind == 0:
+            n = rng.randrange(2**64)
+        elif kind == 1:      # whole seconds and values right around a second boundary
+            n = ((rng.randrange(2**32)) << 32) + rng.choice([0, 1, 0xFFFF, 0x10000, 0xFFFFFFFF])
+        elif kind == 2:      # today's NTP range
+            n = ((0x83AA7E80 + rng.randrange(1_600_000_000, 2_000_000_000)) << 32) | rng.randrange(2**32)
+        else:
+            n = rng.randrange(2 ** rng.randrange(1, 64))
+        cases.append(("ntp", n, rng.choice(rates)))
+    for _ in range(ctx.scale(200, 2000)):
+        sec = rng.choice([0, 1, 1_700_000_000, 2_085_978_495, rng.randrange(2_000_000_000)])
+        us = rng.choice([0, 1, 499_999, 500_000, 999_999, rng.randrange(1_000_000)])
+        cases.append(("ntpnow", sec, us))
+    return cases
+
+
+def run_timing(ctx, only=None):
+    """the integer conversions of timing.py vs `C16/Timing.lean`, and `parts_recombine` /
+    `ntp2ts_seconds` / `ntpNow_parts` as direct oracles on the real functions."""
+    from pyatv.protocols.raop import timing
+    cases = gen_timing_cases(ctx) if only is None else [tuple(c) for c in only]
+    impl = []
+    saved = timing.time_ns
+    try:
+        for c in cases:
+            try:
+                if c[0] == "ntp":
+                    _, n, r = c
+                    sec, frac = timing.ntp2parts(n)
+                    impl.append("%d %d %d %d" % (sec, frac, timing.ntp2ts(n, r), timing.ntp2ms(n)))
+                else:
+                    _, sec, us = c
+                    timing.time_ns = lambda sec=sec, us=us: sec * 10**9 + us * 1000
+                    impl.append("%d" % timing.ntp_now())
+            except Exception as e:  # noqa: BLE001 - an observation
+                impl.append("exception:" + type(e).__name__)
+    finally:
+        timing.time_ns = saved
+    answers = ctx.lean(["%s %d %d" % c for c in cases])
+    for c, a, b in zip(cases, impl, answers):
+        ctx.note("timing:" + c[0])
+        ctx.case(["timing"] + list(c), c[1] > 0xFFFFFFFF if c[0] == "ntp" else c[2] > 0)
+        if a != b:
+            ctx.disagree({"timing": list(c)}, a, b, where="raop/timing.py")
+        ctx.validated()
+        what = timing_oracle(c, a)
+        if what:
+            ctx.fail("timing:" + c[0], {"timing": list(c)}, a, what[0], what[1])
+
+
+def timing_oracle(c, a):
+    """(expected, what) when the real functions break a law the property's timestamps rest on."""
+    if a.startswith("exception:"):
+        return ("a value", "the conversion raised " + a)
+    if c[0] == "ntp":
+        _, n, r = c
+        sec, frac, ts, ms = map(int, a.split())
+        if not (0 <= frac < 2**32 and sec * 2**32 + frac == n):
+            return ("sec * 2^32 + frac == ntp, frac < 2^32", "ntp2parts does not split the NTP value into its two fields")
+        if n < 2**64 and not sec < 2**32:
+            return ("sec < 2^32", "seconds field does not fit its slot")
+        if not (sec * r <= ts < (sec + 1) * r):
+            return ("%d <= ts < %d" % (sec * r, (sec + 1) * r), "ntp2ts leaves the sample_rate units of its second")
+        if frac == 0 and ts != sec * r:
+            return ("%d" % (sec * r), "a whole second is not sample_rate timestamp units")
+        if not (sec * 1000 <= ms < (sec + 1) * 1000):
+            return ("%d <= ms < %d" % (sec * 1000, (sec + 1) * 1000), "ntp2ms leaves its second")
+        return None
+    _, sec, us = c
+    n = int(a)
+    if (n >> 32, n & 0xFFFFFFFF) != (sec + 0x83AA7E80, us * 2**32 // 10**6):
+        return ("(%d, %d)" % (sec + 0x83AA7E80, us * 2**32 // 10**6), "ntp_now: seconds/fraction of the clock reading")
+    return None
+
+
 # --------------------------------------------------------------------------- entry points
 
 def run_cases(ctx, cases):
@@ -1195,6 +1288,7 @@ def run(ctx, only=None, only_sessions=None):
         return
     run_cases(ctx, [d11_witness_case(ctx.rng.fork("d11"))])
     run_fifo(ctx)
+    run_timing(ctx)
     run_sessions(ctx, gen_sessions(ctx))
     run_cases(ctx, gen_retransmit_cases(ctx))
     run_cases(ctx, gen_stream_cases(ctx))
@@ -1207,6 +1301,10 @@ def replay(ctx, failure):
     if "session" in case:
         sess = case["session"]
         return bool(session_failures(sess, execute_session(sess)))
+    if "timing" in case:
+        c2 = type(ctx)(ctx.prop, ctx.tier, ctx.seed, ctx.driver.driver_rel)
+        run_timing(c2, only=[case["timing"]])
+        return bool(c2.failures)
     if "fifo" in case:
         limit, ops = case["fifo"]
         out, keys = fifo_impl(limit, ops)
